@@ -69,7 +69,7 @@ ERRPROGS = {
     "fail_and_stop(erroring condition)": [fn("fail_and_stop", [], [fn("above", [], [fn("add", [], [["h", 1], ["t", 1]]), ["t", 100]])])],
 }
 POLICIES = [[f for i, f in enumerate(("fail", "collect", "stop")) if m >> i & 1] for m in range(8)]
-ROWS = {"k": ["k", "1"], "n": ["n", "1"], "K": ["k", "x"], "N": ["n", "x"], "b": []}
+ROWS = {"k": ["k", "1"], "n": ["n", "1"], "K": ["k", "x"], "N": ["n", "x"], "b": [], "s": []}  # s: a one-cell row (see run_case)
 
 GM = {
     "ok": "~ id: ok ~ $[*][yes()]",
@@ -78,8 +78,11 @@ GM = {
     "stops": '~ id: stops ~ $[*][#0 == "k" -> stop()]',
     "norun": "~ id: norun run-mode: no-run ~ $[*][fail()]",
     "failall": '~ id: failall ~ $[*][#0 == "k" -> fail_all()]',
+    # an error raised OUTSIDE the match components (the collect() projection on a row too short to have column 2) and handled by the
+    # run under a policy with 'fail': whatever verdict the member ends with, the aggregates must be the conjunction
+    "proj": "~ id: proj ~ $[*][collect(2) yes()]",
 }
-GFILES = ["", "n", "k", "nk", "K", "nN", "b", "kn", "nKk", "bn", "N", "kK"]
+GFILES = ["", "n", "k", "nk", "K", "nN", "b", "kn", "ns", "sk", "nKk", "bn", "N", "kK"]
 
 
 def files(nmax):
@@ -108,7 +111,7 @@ def cases(tier, seed):
             for m2 in groups.METHODS:
                 for f in ("k", "nk", "kn"):
                     yield {"kind": "reuse", "first": first, "m1": m1, "m2": m2, "file": f}
-    gfiles = GFILES[:8] if tier == "quick" else GFILES
+    gfiles = GFILES[:10] if tier == "quick" else GFILES
     sizes = (1, 2) if tier == "quick" else (1, 2, 3)
     for k in sizes:
         for grp in itertools.permutations(list(GM), k):
@@ -220,7 +223,7 @@ def run_case(case):
     # group aggregation
 
     grp, pat, method = case["group"], case["file"], case["method"]
-    rows = [list(ROWS[ch]) + ([str(i)] if ch != "b" else []) for i, ch in enumerate(pat)]
+    rows = [(["s"] if ch == "s" else list(ROWS[ch]) + ([str(i)] if ch != "b" else [])) for i, ch in enumerate(pat)]
     cp = groups.fresh(policy="collect, fail")
     src = sandbox.write_csv(rows)
     groups.register(cp, src, [GM[g] for g in grp])
@@ -235,6 +238,9 @@ def run_case(case):
     # the members' own verdicts against a standalone run (so that the conjunction is a conjunction of the right things)
     regfile = cp.file_manager.get_named_file("d")
     for g, r in zip(grp, results):
+        if "proj" in grp:
+            continue  # standalone the projection error escapes instead of being handled, and in a breadth-first run the members after a
+            # projecting member are handed the projected line (line-rewriting members are outside C08): only the aggregation is asserted
         if "failall" in grp and g != "failall":
             continue  # what fail_all() does to the OTHER members of the run is not part of the statement: only the executing csvpath is asserted
         text = GM[g]
